@@ -23,7 +23,7 @@ CONSTANTS Levels,    \* 1 or 2: with 2 only the level-2 expressions are roots (l
           Offset,
           Wide,      \* TRUE: the wider operator set (partial, star_partial, rep, rep_opt, until, if_must, opt_must, if_then_else,
                      \*       enable, disable, raise, try_catch_raise_nested) in addition to the core one
-          AllCfgs    \* TRUE: apply mode x rewind mode x 8 action families x 2 controls; FALSE: rewind mode x {none, bool apply, switches}
+          AllCfgs    \* TRUE: apply mode x rewind mode x 9 action families (8: control_action) x 2 controls; FALSE: rewind mode x {none, bool apply, switches}
 
 VARIABLES w, cfg,                        \* the run: input, configuration incl. root (fixed in Init)
           fr, cur, ret, exc, q, done, aux,    \* PegMachine
@@ -124,7 +124,7 @@ HasDup(g) == GNodes[g].op \in {"if_then_else", "until"} \/ \E i \in 1..Len(GNode
 Init ==
    /\ w \in Inputs
    /\ \E g \in (IF Levels >= 2 THEN (B1 + Len(L1) + 1)..Len(GNodes) ELSE {r \in 1..Len(GNodes) : r % Stride = Offset % Stride}),
-         A \in (IF AllCfgs THEN {0, 1} ELSE {1}), MM \in {0, 1}, af \in (IF AllCfgs THEN 0..7 ELSE {0, 3, 4, 5}), cf \in (IF AllCfgs THEN {2, 4} ELSE {4}) :
+         A \in (IF AllCfgs THEN {0, 1} ELSE {1}), MM \in {0, 1}, af \in (IF AllCfgs THEN 0..8 ELSE {0, 3, 4, 5}), cf \in (IF AllCfgs THEN {2, 4} ELSE {4}) :
          cfg = [g |-> g, A |-> A, M |-> MM, af |-> af, cf |-> cf, eol |-> 3, ib |-> 0, il |-> 1, ic |-> 1, cls |-> IF af = 4 THEN 1 ELSE 0]      \* limit_depth needs the input with the depth counter
    /\ ~(cfg.A = 1 /\ cfg.af \notin {0, 1, 2} /\ HasDup(cfg.g))
    \* grammars that loop without progress on this input are C11's business
